@@ -372,31 +372,39 @@ func registerIntrinsics(in *Interp) {
 		}
 		target := t.V.(Ptr)
 		want := pt.Elem()
-		cur := e
-		for depth := 0; depth < 50 && cur.T != nil; depth++ {
-			match := false
+		var walk func(cur Iface, depth int) bool
+		walk = func(cur Iface, depth int) bool {
+			if cur.T == nil || depth > 50 {
+				return false
+			}
 			if it, isI := want.Underlying().(*types.Interface); isI {
-				match = st.in.implements(cur.T, it)
-				if match {
+				if st.in.implements(cur.T, it) {
 					st.store(target, cur)
+					return true
 				}
 			} else if types.Identical(cur.T, want) {
-				match = true
 				st.store(target, cur.V)
+				return true
 			}
-			if match {
-				return done(Bool{C: true})
+			if cur.T.String() == "*fmt.wrapErrors" {
+				errs := st.robj(cur.V.(Ptr).Obj).Elems[1].(Slice)
+				for i := 0; i < errs.Len; i++ {
+					if walk(st.sliceGet(errs, i).(Iface), depth+1) {
+						return true
+					}
+				}
+				return false
 			}
 			nxt, multi, ok := st.unwrapErr(cur)
-			if !ok || multi {
-				if multi {
-					unsupported("errors.As over multi-%%w error")
-				}
-				break
+			if !ok {
+				return false
 			}
-			cur = nxt
+			if multi {
+				unsupported("errors.As over a custom multi-error")
+			}
+			return walk(nxt, depth+1)
 		}
-		return done(Bool{})
+		return done(Bool{C: walk(e, 0)})
 	}
 	I["errors.Unwrap"] = func(st *State, fr *Frame, a []Value, res ssa.Value) (Value, int) {
 		e := a[0].(Iface)
@@ -586,8 +594,19 @@ func registerIntrinsics(in *Interp) {
 	I["runtime.NumCPU"] = I["runtime.GOMAXPROCS"]
 	I["testing.Testing"] = func(st *State, fr *Frame, a []Value, _ ssa.Value) (Value, int) { return done(Bool{C: true}) }
 
+	I["maps.clone"] = func(st *State, fr *Frame, a []Value, _ ssa.Value) (Value, int) {
+		e := a[0].(Iface)
+		m := e.V.(Map)
+		if m.Obj == 0 {
+			return done(e)
+		}
+		o := st.robj(m.Obj).clone(st.epoch)
+		// compact tombstones so that iteration order stays insertion order of live keys
+		return done(Iface{T: e.T, V: Map{Obj: st.newObj(o)}})
+	}
 	registerSyncIntrinsics(in)
 	registerCryptoIntrinsics(in)
+	registerBase64Intrinsics(in)
 	registerTimeIntrinsics(in)
 }
 
